@@ -4,7 +4,7 @@ CONSTANTS
   MaxLen = 0
   Sweep = FALSE
   AttrMode = "full"
-  ValMode = "few"
+  ValMode = "few3"
 INIT Init
 NEXT Next
 INVARIANT Escaped
